@@ -159,6 +159,36 @@ def pmap(fn, items, seed: int = 0, init=None, jobs: int | None = None, chunksize
     return out
 
 
+def in_child(fn, arg=None):
+    """Run fn(arg) in a forked child (so the parent never builds a world)."""
+    ctx = mp.get_context('fork')
+    with ctx.Pool(1) as pool:
+        idx, r, err = pool.apply(_call, ((0, fn, arg),))
+    if err:
+        raise HarnessError(err)
+    return r
+
+
+_RUN_DIR = None
+
+
+def run_dir() -> Path:
+    """Per-run scratch directory under /dev/shm; created by the parent, removed at its exit."""
+    global _RUN_DIR
+    if _RUN_DIR is None:
+        import atexit
+        import shutil
+        import tempfile
+        _RUN_DIR = Path(tempfile.mkdtemp(prefix='verif-run-', dir='/dev/shm'))
+        owner = os.getpid()
+
+        def _cleanup():
+            if os.getpid() == owner:
+                shutil.rmtree(_RUN_DIR, ignore_errors=True)
+        atexit.register(_cleanup)
+    return _RUN_DIR
+
+
 def chunks(seq, n):
     seq = list(seq)
     for i in range(0, len(seq), n):
